@@ -257,11 +257,12 @@ def _c04_extra(seed, quick):
 
 
 def _c08_extra(seed, quick):
-    return conc_shards("C08", seed, "held-client", 600 if quick else 20000, 40 if quick else 400, shards=4)
+    return conc_shards("C08", seed, "held-client", 600 if quick else 20000, 40 if quick else 400, shards=2) + conc_shards("C08", seed, "mixed", 30 if quick else 600, 40 if quick else 400, shards=2)
 
 
 def _c07_extra(seed, quick):
-    return conc_shards("C07", seed, "same-key", 24 if quick else 400, 40 if quick else 400, shards=2) + conc_shards("C07", seed, "held-client", 600 if quick else 20000, 40 if quick else 400, shards=2)
+    return (conc_shards("C07", seed, "same-key", 24 if quick else 400, 40 if quick else 400, shards=1) + conc_shards("C07", seed, "held-client", 600 if quick else 20000, 40 if quick else 400, shards=1)
+            + conc_shards("C07", seed, "mixed", 30 if quick else 600, 40 if quick else 400, shards=2))
 
 
 def _c03_extra(seed, quick):
@@ -320,13 +321,13 @@ SEQ_ONLY = {
         "extra_shards": _c07_extra,
         "explanation": "All four put variants against keys in every life-cycle state (never written, live, live with TTL, deleted and acknowledged, "
                        "swept, past TTL but unswept): a readable key must answer KeyAlreadyExists and stay untouched, an absent-reading key must never.",
-        "require": ["critical:put-on-readable-key", "puts_accepted", "races_where_both_writes_passed_the_existence_check_before_the_first_was_applied"],
+        "require": ["critical:put-on-readable-key", "puts_accepted", "races_where_both_writes_passed_the_existence_check_before_the_first_was_applied", "writes_to_a_definitely_present_key_judged", "coherence_probes"],
     },
     "C08": {
         "explanation": "All builder-accepted upsert shapes against keys in the states absent, live, live+ttl, expired-unswept, soft-deleted "
                        "(worker held so that the Delete is still queued); value, expiry (through get_ref) and charged weight (snapshot) are compared "
                        "with the model right after the call and at the next quiescent point.",
-        "require": ["upserts_taking_put_path", "structure_checks", "pipelined_upsert_bursts_checked"],
+        "require": ["upserts_taking_put_path", "structure_checks", "pipelined_upsert_bursts_checked", "writes_to_a_definitely_present_key_judged"],
         "extra_shards": _c08_extra,
     },
     "C09": {
